@@ -1,7 +1,7 @@
 (* C18: platform faults degrade gracefully.
    Statements only: each theorem restates the full type of a lemma proved in coq/proofs and is closed by
    `exact`; Print Assumptions beneath.  Regenerate with bin/genprops.py after a lemma changes. *)
-From LLTD Require Import BlockFun BlockSafe PropsMapper FaultProofs.
+From LLTD Require Import BlockFun BlockSafe PropsMapper FaultProofs EndToEnd.
 
 Theorem C18_no_fault_any_oracle :
   forall (af sf : N -> bool) (junk : N) (cfgs : N -> pcfg) (g : gcfg) (l : list fop)
@@ -61,3 +61,46 @@ Theorem C18_constructors_report_failure :
   w_bytes w' = w_bytes w /\ (obj = false -> extra = false) /\ (k = Sys.KEnumeration -> extra = obj).
 Proof. exact ctor_any_oracle. Qed.
 Print Assumptions C18_constructors_report_failure.
+
+Theorem C18_fault_history_then_reset_then_like_fresh :
+  forall (af sf af' sf' : N -> bool) (junk : N) (cfgs : N -> pcfg) (g : gcfg)
+  (mtus : N -> N) (ctx : N) (hist : list (list N)) (rbuf : list N) (h : hdr)
+  (cont : list (list N)) (r : registry) (w : world) (bl : nat) (bb : N),
+  cfg_ok (cfgs ctx) ->
+  Forall (SystemRefinement.buf_len cfgs ctx) hist ->
+  SystemRefinement.buf_len cfgs ctx rbuf ->
+  Forall (SystemRefinement.buf_len cfgs ctx) cont ->
+  parse_hdr rbuf = Some h ->
+  h_tos h = tos_discovery ->
+  h_opc h = opcode_reset ->
+  ledger_reg bl bb r w ->
+  reg_bounded g r ->
+  exists (r1 : registry) (w1 : world) (r2 : registry) (w2 : world),
+  run_frames af sf junk cfgs g r (SystemRefinement.on ctx hist) w = Ok r1 w1 /\
+  ledger_reg bl bb r1 w1 /\
+  run_frames af' sf' junk cfgs g r1 (SystemRefinement.on ctx [rbuf]) w1 = Ok r2 w2 /\
+  norm (SystemRefinement.reg_state r2 ctx) = fresh /\
+  w_trace w2 = w_trace w1 /\
+  (SystemRefinement.cfgs_nominal cfgs mtus ->
+  exists (r3 : registry) (w3 : world),
+  run_frames no_fail no_fail junk cfgs g r2 (SystemRefinement.on ctx cont) w2 = Ok r3 w3 /\
+  w_trace w3 = rev (snd (f_run ctx (cfgs ctx) g (mtus ctx) fresh cont)) ++ w_trace w2 /\
+  ledger_reg bl bb r3 w3).
+Proof. exact C18_recovery. Qed.
+Print Assumptions C18_fault_history_then_reset_then_like_fresh.
+
+Theorem C18_reset_frame_any_oracle_registry_level :
+  forall (af sf : N -> bool) (junk ctx : N) (c : pcfg) (g : gcfg) (r : registry)
+  (buf : list N) (h : hdr) (w : world) (bl : nat) (bb : N),
+  cfg_ok c ->
+  length buf = o (c_rxsize c) ->
+  ledger_reg bl bb r w ->
+  parse_hdr buf = Some h ->
+  h_tos h = tos_discovery ->
+  h_opc h = opcode_reset ->
+  exists (r' : registry) (w' : world),
+  parse_frame af sf junk ctx c g r buf w = Ok r' w' /\
+  norm (SystemRefinement.reg_state r' ctx) = fresh /\
+  w_trace w' = w_trace w /\ ledger_reg bl bb r' w' /\ w_now w' = w_now w.
+Proof. exact reset_frame_any_oracle. Qed.
+Print Assumptions C18_reset_frame_any_oracle_registry_level.
